@@ -140,28 +140,56 @@ class Gen:
         return 2 if r < self.p['pF6'] else (0 if r < 0.3 else 1)
 
 
+class _Lines:
+    """line reader over a pipe with a time-out (select on the descriptor, own buffer: Python's buffered readers would hide data
+    from select)"""
+
+    def __init__(self, f):
+        self.fd = f.fileno(); self.buf = b''; self.eof = False
+
+    def readline(self, timeout):
+        import select
+        while b'\n' not in self.buf and not self.eof:
+            if not select.select([self.fd], [], [], timeout)[0]: return None
+            chunk = os.read(self.fd, 1 << 16)
+            if not chunk: self.eof = True
+            self.buf += chunk
+        if b'\n' in self.buf:
+            l, self.buf = self.buf.split(b'\n', 1)
+            return l.decode('latin1')
+        l = self.buf.decode('latin1'); self.buf = b''
+        return l if l else ''
+
+
 def run_c(binary, conf, opgen, N, errpath):
-    """drive the C harness; opgen(state) yields the next op line given what was observed so far"""
-    p = subprocess.Popen([binary, conf], stdin=subprocess.PIPE, stdout=subprocess.PIPE, stderr=open(errpath, 'w'), text=True, env=dict(ASAN_ENV, ASAN_OPTIONS=ASAN_ENV['ASAN_OPTIONS'].replace('detect_leaks=0', 'detect_leaks=1')))
+    """drive the C harness: returns (process, configuration dump, c_op); c_op(op) sends one op and returns the lines of its answer
+    ("DIED" as last element if the process died or did not answer within 20 s)"""
+    p = subprocess.Popen([binary, conf], stdin=subprocess.PIPE, stdout=subprocess.PIPE, stderr=open(errpath, 'w'), bufsize=0,
+                         env=dict(ASAN_ENV, ASAN_OPTIONS=ASAN_ENV['ASAN_OPTIONS'].replace('detect_leaks=0', 'detect_leaks=1')))
+    rd = _Lines(p.stdout)
     dump = []
     while True:
-        l = p.stdout.readline()
-        if l == "":
+        l = rd.readline(60.0)
+        if l is None or (l == '' and rd.eof):
             raise BuildError('daemon harness died while reading its configuration: ' + open(errpath).read()[-1500:])
-        l = l.rstrip("\n")
         if l == "READY": break
         dump.append(l)
 
     def c_op(op):
-        p.stdin.write(op + "\n")
-        p.stdin.flush()
+        try:
+            p.stdin.write((op + "\n").encode())
+        except (BrokenPipeError, OSError):
+            return ["DIED"]
         res = []
         while True:
-            l = p.stdout.readline()
-            if l == "":
-                res.append("DIED")
-                return res
-            l = l.rstrip("\n")
+            # one pass of the real code never takes seconds: no answer within 20 s means it spins or blocks (a wedged daemon)
+            l = rd.readline(20.0)
+            if l is None:
+                p.kill()
+                open(errpath, 'a').write('\nHUNG: no answer to one pass within 20 s; the process was killed\n')
+                res.append("DIED"); return res
+            if l == '' and rd.eof:
+                res.append("DIED"); return res
             if l == ".": return res
             res.append(l)
     return p, dump, c_op
@@ -310,6 +338,7 @@ def canon(ls):
 
 
 def death_class(stderr):
+    if 'HUNG: no answer' in stderr: return 'hang'
     if 'AddressSanitizer' in stderr:
         import re
         m = re.search(r'ERROR: AddressSanitizer: (\S+)', stderr)
